@@ -49,17 +49,17 @@ WITNESS = [("sg_3", 14)]
 # --------------------------------------------------------------------------- cases
 def cases(tier, seed):
     out = []
-    n_id = 112 if tier == "quick" else 2400
-    n_pr = 48 if tier == "quick" else 1200
+    n_id = 480 if tier == "quick" else 4800
+    n_pr = 240 if tier == "quick" else 2400
     for k in range(n_id):
         m = METHODS[k % 4]
         rk = RKINDS[(k // 4) % len(RKINDS)]
         out.append(("identity", {"method": m, "rkind": rk, "k": k}, 6.0 if m in ("lebedev", "ahrens_beylkin") else 9.0))
     for k in range(n_pr):
         out.append(("pruned", {"method": METHODS[k % 4], "mode": ["edges-on-nodes", "random", "sizes"][(k // 4) % 3], "k": k}, 3.0))
-    variants = [0] if tier == "quick" else [0, 1, 2, 3]
-    for p, z in presets_c05.all_pairs():
+    for i, (p, z) in enumerate(presets_c05.all_pairs()):
         n = presets_c05.prescribed_size(p, z) or 60
+        variants = [0, 1 + (i + seed) % 3] if tier == "quick" else [0, 1, 2, 3]
         for v in variants:
             out.append(("preset", {"preset": p, "atnum": z, "variant": v}, 1.0 + n / 40.0))
     for p, z in WITNESS:
@@ -106,8 +106,10 @@ def make_rgrid(rng, kind, n=None):
     if n is None:
         n = int(rng.integers(1, 41)) if rng.random() < 0.8 else int(rng.integers(1, 4))
     if kind == "gl-becke":
+        n = max(n, 2)
         return BeckeRTransform(10 ** rng.uniform(-6, -2), rng.uniform(0.5, 3.0)).transform_1d_grid(GaussLegendre(n))
     if kind == "gc-knowles":
+        n = max(n, 2)
         return KnowlesRTransform(10 ** rng.uniform(-6, -2), rng.uniform(0.5, 3.0), int(rng.integers(1, 4))).transform_1d_grid(GaussChebyshev(n))
     if kind == "trap-linear":
         n = max(n, 2)
